@@ -16,14 +16,16 @@ from props import REGISTRY
 SHARDS = 8
 TIERS = {"quick": 5, "thorough": 250}       # script sets per shard: 40 / 2000
 
-RULE = ("case = one set of per-thread scripts: 2-16 threads (30% 2-4, 30% 5-8, 40% 9-16), 1-5 rounds, 1-8 ops per thread and round, "
+RULE = ("case = one set of per-thread scripts: 2-16 threads (30% 2-4, 30% 5-8, 40% 9-16), 1-5 rounds, 1-12 ops per thread and round, "
         "one Serial (75%) or OpenMP device. The main thread creates the device, a seed memory, kernel, stream and memory pool, "
-        "gives every thread its own base handle to each and drops its own handles. Ops of a thread in a round: copy(object, n "
+        "gives every thread its own base handle to each and drops its own handles. Ops of a thread in a round: copy(object, n<=16 "
         "copies, destroyed LIFO / FIFO / one at a time incl. assignment), hold / drop a copy across rounds, rotate (re-seat the "
         "base handle: remove + add to the ring), getDevice()/getStream() temporaries, malloc / free() / destroy of private memory "
         "on the shared device, slice of the shared or of a private memory, private memoryPool reserve / release / destroy, "
         "buildKernelFromString (cache hit, -O0) / drop / run on private memory with the result checked, createStream / drop, "
-        "tagStream. 70% of a round's ops go to the round's focus (one shared object, allocation, kernels or streams). Two barriers "
+        "tagStream. 70% of a round's ops go to the round's focus (one shared object, allocation, kernels, streams; one round in ten only "
+        "runs kernels, so that no lock orders the threads). The first script set of a process also lets all threads make the process' "
+        "first use of occa::settings() concurrently. OpenMP devices build but do not run kernels (libgomp is not instrumented). Two barriers "
         "between rounds; at each of them and after the join the live-object counters (device, buffer, memory, memoryPool, kernel, "
         "stream, streamTag) and memoryAllocated() must equal the sequential model; every thread finally releases what it created, "
         "concurrently. Oracle 1 = no ThreadSanitizer report "
@@ -67,7 +69,11 @@ def _run(prop, tier, replay, t0):
             return 0
         out = vlib.Outcome()
         findings = vlib.known_findings(prop)
-        vlib.run_saved_replays(prop, binary, wd, out, findings, extra_env=extra_env)
+        # the saved inputs are replayed one after the other: they share one (warm after the first) kernel cache directory;
+        # the shards below keep their own OCCA_CACHE_DIR from vlib.base_env
+        renv = dict(extra_env)
+        renv["OCCA_CACHE_DIR"] = os.path.join(wd, "cache_replays")
+        vlib.run_saved_replays(prop, binary, wd, out, findings, extra_env=renv)
         per_shard = TIERS.get(tier, TIERS["quick"])
         vlib.run_rc(prop, binary, wd, out, per_shard, 100, shards=SHARDS, known_ids=[f.id for f in findings],
                     extra_env=extra_env, tier=tier, timeout=6 * 3600)
